@@ -366,11 +366,18 @@ def prove_sorted(I, term):
     ctx = I.ctx
     if term.etype is None:
         return False
-    i1, i2 = ctx.fresh_int("s1"), ctx.fresh_int("s2")
-    m1 = term.any_member(i1)
-    m2 = term.any_member(i2)
-    le = bm.elem_lex_le(I)(m1.elem, m2.elem)
-    return ctx.entails(z3.Implies(z3.And(m1.cond, m2.cond, i1 < i2), le))
+    cached = getattr(term, "_sorted_proved", None)
+    if cached is not None:
+        return cached
+    with ctx.scoped():
+        i1, i2 = ctx.fresh_int("s1"), ctx.fresh_int("s2")
+        m1 = term.any_member(i1)
+        m2 = term.any_member(i2)
+        le = bm.elem_lex_le(I)(m1.elem, m2.elem)
+        r = ctx.entails(z3.Implies(z3.And(m1.cond, m2.cond, i1 < i2), le))
+    if r:
+        term._sorted_proved = True
+    return r
 
 
 def sort_in_place(I, box):
@@ -406,17 +413,20 @@ def add_adjacent_fact(I, term, cond, fn, tag):
     if fn is transitive on elements satisfying T's facts, it holds for every i < j (Lean: chain_pairwise)."""
     ctx = I.ctx
     term.adj_facts.append((cond, fn, tag))
-    i, j, k = ctx.fresh_int("c1"), ctx.fresh_int("c2"), ctx.fresh_int("c3")
-    a = term.any_member(i)
-    b = term.any_member(j)
-    c = term.any_member(k)
-    I.ctx.pure_depth += 1
-    try:
-        goal = z3.Implies(z3.And(cond, a.cond, b.cond, c.cond, i < j, j < k, to_z3(fn(a.elem, b.elem)), to_z3(fn(b.elem, c.elem))),
-                          to_z3(fn(a.elem, c.elem)))
-    finally:
-        I.ctx.pure_depth -= 1
-    if ctx.entails(goal):
+    with ctx.scoped():
+        i, j, k = ctx.fresh_int("c1"), ctx.fresh_int("c2"), ctx.fresh_int("c3")
+        a = term.any_member(i)
+        b = term.any_member(j)
+        c = term.any_member(k)
+        I.ctx.pure_depth += 1
+        try:
+            goal = z3.Implies(z3.And(cond, a.cond, b.cond, c.cond, i < j, j < k, to_z3(fn(a.elem, b.elem)),
+                                     to_z3(fn(b.elem, c.elem))),
+                              to_z3(fn(a.elem, c.elem)))
+        finally:
+            I.ctx.pure_depth -= 1
+        ok = ctx.entails(goal)
+    if ok:
         term.pair_facts.append((cond, fn, tag + "+chain"))
         return True
     return False
@@ -557,8 +567,47 @@ def segments(I, term):
         return [Seg("conc", items=term.items, term=term)] if term.items else []
     if isinstance(term, FM):
         f = fuse(I, term)
+        if isinstance(f, FM) and isinstance(f.src, Concat) and index_free(I, f):
+            # flatMap distributes over concatenation
+            out = []
+            for p in f.src.parts:
+                if p.etype is None and isinstance(p, Conc) and not p.items:
+                    continue
+                pb = list(zip([c for c, _ in f.binds], [to_z3(x) for x in I.elem_parts(p.at(f.jvar))]))
+                out.extend(segments(I, core.mk_fm(I, p, f.jvar, f.paths, f.etype, pb)))
+            return out
+        if isinstance(f, FM) and isinstance(f.src, Conc) and index_free(I, f) and f.src.items:
+            r = expand_over_items(I, f)
+            if r is not None:
+                return r
         return [Seg("fm", fm=f, term=f)]
     return [Seg("opaque", term=term)]
+
+
+def index_free(I, f):
+    from .loops import free_names, value_exprs
+    exprs = [p.guard for p in f.paths] + [e for p in f.paths for o in p.outs for e in value_exprs(I, o)]
+    return f.jvar.decl().name() not in free_names(exprs) and len(f.binds) > 0
+
+
+def expand_over_items(I, f):
+    """FM over a list of known items: decide each guard on the path (no fork: only if entailed)"""
+    ctx = I.ctx
+    consts = [c for c, _ in f.binds]
+    items = []
+    for it in f.src.items:
+        parts = [to_z3(x) for x in I.elem_parts(I.coerce_elem(it, f.src.etype))]
+        pairs = list(zip(consts, parts))
+        chosen = None
+        for p in f.paths:
+            g = z3.substitute(p.guard, *pairs)
+            if ctx.entails(g):
+                chosen = p
+                break
+        if chosen is None:
+            return None
+        items.extend(I.elem_map(o, lambda e: z3.substitute(e, *pairs)) for o in chosen.outs)
+    return [Seg("conc", items=items, term=None)] if items else []
 
 
 def merge_conc(segs):
@@ -573,6 +622,18 @@ def merge_conc(segs):
 
 def same_term(I, t1, t2):
     """(ok, why): prove that the two list terms denote equal lists on the current path."""
+    if t1 is t2:
+        return True, None
+    with I.ctx.scoped():
+        ok, why = same_term_inner(I, t1, t2)
+        if not ok and isinstance(why, tuple) and why[1] is not None:
+            # keep a counter-model while the scope's witnesses are still alive
+            model, status = I.registry_model(why[1]) if hasattr(I, "registry_model") else (None, None)
+            why = (why[0], why[1], model, status)
+    return ok, why
+
+
+def same_term_inner(I, t1, t2):
     if t1 is t2:
         return True, None
     s1 = merge_conc(segments(I, t1))
